@@ -631,11 +631,41 @@ func successReturns(fn *ssa.Function, idx int) []Sink {
 			}
 			continue
 		}
-		if !definitelyNonNil(v, 0) {
+		if !definitelyNonNil(v, 0) && !nonNilOnAllPaths(fn, v, b) {
 			out = append(out, Sink{Instr: ret, Desc: "return nil-able"})
 		}
 	}
 	return out
+}
+
+// nonNilOnAllPaths: block blk is reachable only through the "v != nil" side of a test on v.
+func nonNilOnAllPaths(fn *ssa.Function, v ssa.Value, blk *ssa.BasicBlock) bool {
+	v = stripValue(v)
+	edges := map[Edge]bool{}
+	for _, b := range fn.Blocks {
+		if len(b.Instrs) == 0 {
+			continue
+		}
+		ifi, ok := b.Instrs[len(b.Instrs)-1].(*ssa.If)
+		if !ok {
+			continue
+		}
+		cd := normCond(ifi.Cond)
+		if cd.Kind != CondNotNil || stripValue(cd.Base) != v {
+			continue
+		}
+		// cond true <=> v != nil xor Neg. the non-nil side:
+		if !cd.Neg {
+			edges[Edge{b, 0}] = true
+		} else {
+			edges[Edge{b, 1}] = true
+		}
+	}
+	if len(edges) == 0 {
+		return false
+	}
+	_, reach := reachable(fn.Blocks[0], edges)[blk]
+	return !reach
 }
 
 // boolReturns lists returns whose result #idx may equal want.
